@@ -873,6 +873,66 @@ def gen_history_inputs(rng, n):
         yield inp
 
 
+def check_solver_reuse(inp) -> list:
+    """a solver OBJECT used for several datasets in a row (solve, read, solve, read ...): after every solve its
+    accessors must return what a fresh solver object returns for that dataset alone, in both layouts, whatever was
+    read before; reading twice gives the same arrays; the basis sets are untouched"""
+    import symfc.solvers as S
+    cr = _cr(inp)
+    orders = tuple(inp["orders"])
+    N = len(cr.numbers)
+    rs = np.random.default_rng(inp.get("data_seed", 0))
+    bsets = [ph.get_basis(cr, o) for o in orders]
+    if any(b.basis_set.shape[1] == 0 for b in bsets):
+        return []
+    cls = getattr(S, "FCSolver" + "".join(f"O{o}" for o in orders))
+    arg = bsets[0] if len(orders) == 1 else list(bsets)
+    nsnap = inp["n_snap"]
+    datasets = [(rs.normal(scale=0.05, size=(nsnap, N, 3)), rs.normal(size=(nsnap, N, 3))) for _ in range(3)]
+    out = []
+
+    def read(sol, layout):
+        v = sol.full_fc if layout == "full" else sol.compact_fc
+        v = v if isinstance(v, (tuple, list)) else (v,)
+        return [np.array(x) for x in v]
+
+    snap = [(b.basis_set.copy(), b.compact_compression_matrix.toarray().copy()) for b in bsets]
+    sol = cls(arg)
+    for step, ds in enumerate(inp["sequence"]):
+        d, f = datasets[ds]
+        sol.solve(d.copy(), f.copy())
+        fresh = cls(arg).solve(d.copy(), f.copy())
+        for layout in inp["reads"][step]:
+            got = read(sol, layout)
+            ref = read(fresh, layout)
+            again = read(sol, layout)
+            for o, g, r, a in zip(orders, got, ref, again):
+                sc = max(float(np.abs(r).max()), 1e-300)
+                if g.shape != r.shape or float(np.abs(g - r).max()) / sc > 1e-7:
+                    out.append(f"solver {orders}: {layout} force constants of order {o} after solve #{step + 1} "
+                               f"(dataset {ds}) differ from a fresh solver object")
+                elif not np.array_equal(g, a):
+                    out.append(f"solver {orders}: reading {layout} twice gives different arrays (order {o})")
+        if out:
+            break
+    for b, (b0, c0) in zip(bsets, snap):
+        if not np.array_equal(b.basis_set, b0) or not np.array_equal(b.compact_compression_matrix.toarray(), c0):
+            out.append(f"solver {orders}: a basis set was modified")
+    return out
+
+
+def gen_solver_reuse_inputs(rng, n):
+    combos = [[2], [3], [2, 3], [4], [3, 4], [2, 3, 4]]
+    lowsym = ["wurtzite", "tetragonal2", "mono", "hcp"]
+    for k in range(n):
+        od = combos[k % 6]
+        cr = crystal(rng, max_N=3 if 4 in od else 4, protos=lowsym)
+        L = rng.randint(2, 3)
+        yield {"crystal": cr, "orders": od, "n_snap": 60, "data_seed": rng.randrange(10 ** 6),
+               "sequence": [rng.randint(0, 2) for _ in range(L)],
+               "reads": [rng.choice([["full"], ["compact"], ["full", "compact"], ["compact", "full"]]) for _ in range(L)]}
+
+
 def check_basis_o1(inp) -> list:
     """the exported 1st-order basis (FCBasisSetO1): orthonormal, invariant under every operation, obeys the sum rule,
     spans the whole admissible space"""
@@ -1033,6 +1093,7 @@ CHECKS = {
     "ortho_after_fit": check_ortho_after_fit,
     "basis_o1": check_basis_o1,
     "api_invalid": check_api_invalid,
+    "solver_reuse": check_solver_reuse,
 }
 
 
